@@ -70,12 +70,12 @@ impl Model {
 
     fn live_keys(&mut self, db: usize) -> Vec<Bytes> {
         let now = self.now;
-        self.dbs[db].keys.iter().filter(|(_, e)| e.deadline.map(|d| now < d).unwrap_or(true)).map(|(k, _)| k.clone()).collect()
+        self.dbs[db].keys.iter().filter(|(_, e)| e.deadline.map(|d| now <= d).unwrap_or(true)).map(|(k, _)| k.clone()).collect()
     }
 
     fn stale_count(&self, db: usize) -> usize {
         let now = self.now;
-        self.dbs[db].keys.values().filter(|e| e.deadline.map(|d| now >= d).unwrap_or(false)).count()
+        self.dbs[db].keys.values().filter(|e| e.deadline.map(|d| now > d).unwrap_or(false)).count()
     }
 
     /// type of a live key
@@ -194,6 +194,24 @@ impl Model {
                     Exp::Pred("one present key".into(), Box::new(move |a| matches!(a, R::Bulk(b) if set.contains(b))))
                 }
             }
+            "SCAN" => {
+                // only the form used as an absence probe is modelled: SCAN 0 COUNT <large>
+                if n == 4 && args[1] == b"0" && upper(&args[2]) == "COUNT" {
+                    let keys = self.live_keys(db);
+                    if let Some(c) = strict_i64(&args[3]) {
+                        if c as usize > keys.len() + self.stale_count(db) {
+                            let want: Vec<R> = keys.iter().map(|k| bulk(k)).collect();
+                            return Exp::Pred(format!("scan[{}]", want.len()), Box::new(move |a| match a {
+                                R::Arr(v) if v.len() == 2 => {
+                                    matches!(&v[0], R::Bulk(c) if c == b"0") && Exp::AnyOrder(want.clone()).matches(&v[1])
+                                }
+                                _ => false,
+                            }));
+                        }
+                    }
+                }
+                Exp::Any
+            }
             "FLUSHDB" => {
                 if n != 1 {
                     return Exp::Err;
@@ -264,6 +282,10 @@ impl Model {
                         None => Exp::Is(int(-1)),
                         Some(dl) => {
                             let rem_ns = dl - now;
+                            if rem_ns == 0 {
+                                // the exact deadline instant is a don't-care: the key is still visible, a TTL of 0 or -2 is accepted
+                                return Exp::OneOf(vec![Exp::Is(int(0)), Exp::Is(int(-2))]);
+                            }
                             if name == "PTTL" {
                                 let ms = (rem_ns / 1_000_000) as i64;
                                 Exp::IntIn(ms - 1, ms + 1)
